@@ -242,6 +242,71 @@ func init() {
 // PairSetCount is the number of key pairs.
 func PairSetCount() int { return len(pairSets) }
 
+// raggedShapes are the inner lengths of the ragged nests (-1 = null).
+var raggedShapes = [][]int{
+	{0, 2}, {2, 0}, {0, 1}, {0, 0}, {1, 2}, {0, 1, 2}, {3, 0, 1}, {-1, 2}, {2, -1}, {1, 1}, {0}, {2, 3},
+}
+
+// RaggedHasNull reports whether ragged shape sel has a null element.
+func RaggedHasNull(sel int) bool {
+	if sel < 0 || sel >= len(raggedShapes) {
+		return false
+	}
+	for _, n := range raggedShapes[sel] {
+		if n < 0 {
+			return true
+		}
+	}
+	return false
+}
+
+// RaggedCount is the number of ragged shapes.
+func RaggedCount() int { return len(raggedShapes) }
+
+// RaggedArrays returns [[..], [..]] with the inner lengths of shape sel.
+func RaggedArrays(sel int) *Val {
+	out := &Val{K: VArr}
+	if sel < 0 || sel >= len(raggedShapes) {
+		return out
+	}
+	v := int64(1)
+	for _, n := range raggedShapes[sel] {
+		if n < 0 {
+			out.A = append(out.A, Null())
+			continue
+		}
+		in := &Val{K: VArr}
+		for i := 0; i < n; i++ {
+			in.A = append(in.A, Int(v))
+			v++
+		}
+		out.A = append(out.A, in)
+	}
+	return out
+}
+
+// RaggedMaps is RaggedArrays with typed maps (keys ka, kb, ...) as elements.
+func RaggedMaps(sel int) *Val {
+	out := &Val{K: VArr}
+	if sel < 0 || sel >= len(raggedShapes) {
+		return out
+	}
+	v := int64(1)
+	for _, n := range raggedShapes[sel] {
+		if n < 0 {
+			out.A = append(out.A, Null())
+			continue
+		}
+		in := Obj(nil)
+		for i := 0; i < n; i++ {
+			in.O["k"+string(rune('a'+i))] = Int(v)
+			v++
+		}
+		out.A = append(out.A, in)
+	}
+	return out
+}
+
 // KeySet returns the key set selected by sel.
 func KeySet(sel int) []string {
 	if sel < 0 {
@@ -386,6 +451,18 @@ func Exec(p *Program, io *StageIO) (*StageResult, error) {
 		outs[st.Outs[0].Name] = Int(s)
 	case "COND":
 		outs[st.Outs[0].Name] = Bool(argOf(io, st.Ins[0].Name).Int() > 0)
+	case "RAGGED":
+		// aa: array of int arrays of different lengths; am: array of typed
+		// maps with different key sets (ragged set sel)
+		sel := int(argOf(io, "sel").Int())
+		for _, o := range st.Outs {
+			switch o.Name {
+			case "aa":
+				outs["aa"] = RaggedArrays(sel)
+			case "am":
+				outs["am"] = RaggedMaps(sel)
+			}
+		}
 	case "KEYS":
 		// m: a typed map with the keys of key set sel (values 1, 2, ...);
 		// a: an array of the same length (values 100, 200, ...)
